@@ -322,6 +322,9 @@ def check(prog: Program, res: Result) -> None:
     check_own_cache(prog, res)
     check_label_frames(prog, res)
     check_len(prog, res)
+    # "only non-empty instances produce samples": the (frame, instance) index list and the cache fill count the SAME sequence
+    from . import c18 as _c18
+    res.borrow(_c18.check_index, "C11-index", prog)
     res.extra["alias"].update({"functions_analysed": len(al.analysed), "unknown_methods_treated_as_alias": dict(sorted(al.unknown_methods.items()))})
     for fi in al.analysed:
         res.touch(fi)
